@@ -160,6 +160,7 @@ _XC_SRCS = [
     "x = [i for i in range(3)]\n\n\ndef top():\n    y = {k: v for k, v in {}.items()}\n    class In:\n        z = (w for w in [])\n    return y\n",
     "class A:\n    class B:\n        def c(self):\n            def d():\n                pass\n            return d\n    def e(self): return 1\n",
     "def one(): return 1\ndef two():\n    a = 1\n\n    b = 2\n    return a + b\n\n# trailing comment\nvalue = two()\n",
+    "class C:\n    def spread(self): return (1 +\n                              2)\n    other = 3\n\n\ndef after(): return [1,\n    2]\nz = 1\n",
 ]
 _XC_MODS = {}
 
@@ -210,3 +211,46 @@ bounded_check(name="c15-holding-offset-native", props=["C15", "C20"], contract="
               domain=_xc_hso_domain, exhaustive=True, env=_XC_SCOPE_ENV,
               label="CPython cross-check: get_holding_scope_for_offset's contract on the real scope trees of 5 small modules (nested functions, classes, lambdas, "
                     "comprehensions, a conditional expression with comprehensions in body and test), every offset from the module scope and every 3rd from every scope")
+
+
+def _xc_hs_domain(tier, seed):
+    for i, src in enumerate(_XC_SRCS):
+        for line in range(1, src.count("\n") + 2):
+            for ind in (None, 0, 4, 8):
+                yield (i, line, ind)
+
+
+def _xc_hs_build(case):
+    from rope.base import pyscopes
+    i, line, ind = case
+    pm, root = _xc_scopes(i)
+    return {"self": pyscopes._HoldingScopeFinder(pm), "module_scope": root, "lineno": line, "line_indents": ind, "__dom_Scope__": _xc_all(root)}
+
+
+_XC_SCOPE_ENV2 = dict(_XC_SCOPE_ENV, start_of=lambda s: s.get_start(), end_of=lambda s: s.get_end(), kind_of=lambda s: s.get_kind(),
+                      indents_of=lambda f, s: f._get_scope_indents(s), indent_of_line=lambda f, l: f.get_indents(l))
+bounded_check(name="c15-holding-line-native", props=["C15", "C20"], contract="_HoldingScopeFinder.get_holding_scope", build=_xc_hs_build, domain=_xc_hs_domain,
+              exhaustive=True, env=_XC_SCOPE_ENV2,
+              label="CPython cross-check: get_holding_scope's contract on the same real scope trees, every line x given indentation None/0/4/8")
+
+
+def _xc_fse_domain(tier, seed):
+    for i in range(len(_XC_SRCS)):
+        for j in range(0, 12):
+            yield (i, j)
+
+
+def _xc_fse_build(case):
+    from rope.base import pyscopes
+    i, j = case
+    pm, root = _xc_scopes(i)
+    # (find_scope_end is only ever asked about the module, functions and classes: comprehension scopes answer get_logical_end themselves)
+    scopes = [s for s in _xc_all(root) if s.get_kind() in ("Module", "Function", "Class")]
+    return {"self": pyscopes._HoldingScopeFinder(pm), "scope": scopes[j % len(scopes)]}
+
+
+_XC_SCOPE_ENV3 = dict(_XC_SCOPE_ENV2, len_of_lines=lambda ls: ls.length(), ast_of=lambda o: o.get_ast(), logical_end=lambda ll, n: ll.logical_line_in(n)[1],
+                      logical_begin=lambda ll, n: ll.logical_line_in(n)[0], starts_in=lambda ll, a, b: list(ll.generate_starts(a, b)),
+                      empty_line=lambda f, n: f._is_empty_line(n), body_indents_of=lambda f, s: f._get_body_indents(s))
+bounded_check(name="c15-scope-end-native", props=["C15", "C20"], contract="_HoldingScopeFinder.find_scope_end", build=_xc_fse_build, domain=_xc_fse_domain, exhaustive=True,
+              env=_XC_SCOPE_ENV3, label="CPython cross-check: find_scope_end's contract on every scope of the same real modules (one-liners, blank lines and comments after a body)")
